@@ -66,6 +66,35 @@ def alphabet():
     ]
 
 
+# PROV-DM: the kind of element each of the two ends of a relation is (constraints 50-ish of PROV-CONSTRAINTS)
+END_KINDS = {
+    "Generation": ("Entity", "Activity"), "Usage": ("Activity", "Entity"), "Communication": ("Activity", "Activity"),
+    "Start": ("Activity", "Entity"), "End": ("Activity", "Entity"), "Invalidation": ("Entity", "Activity"),
+    "Derivation": ("Entity", "Entity"), "Attribution": ("Entity", "Agent"), "Association": ("Activity", "Agent"),
+    "Delegation": ("Agent", "Agent"), "Specialization": ("Entity", "Entity"), "Alternate": ("Entity", "Entity"),
+    "Mention": ("Entity", "Entity"), "Membership": ("Entity", "Entity"),
+}
+
+
+_DECOYS = []
+
+
+def decoys():
+    """two documents that use every name of the alphabet, undeclared, as an agent resp. as an activity"""
+    if not _DECOYS:
+        from prov.model import ProvDocument
+        for role in ("agent", "activity"):
+            d = ProvDocument()
+            d.add_namespace("ex", machine.U["A"])
+            for l in ("e1", "e2", "e3", "a1", "a9", "g1"):
+                if role == "agent":
+                    d.attribution("ex:decoy", "ex:" + l)
+                else:
+                    d.communication("ex:" + l, "ex:decoy2")
+            _DECOYS.append(d)
+    return _DECOYS
+
+
 def endpoints(rec):
     t, i, attrs = rec
     names = FIRST_TWO[t[len(PROV_URI):]]
@@ -110,6 +139,7 @@ class C14(spec.Spec):
         relations = [r for r in want_u if r[0] not in ELEMENT_TYPES]
         want_edges = []
         inferred = set()
+        roles = {}
         unclaimed = []
         unclaimed_uris = set()
         for r in relations:
@@ -123,10 +153,14 @@ class C14(spec.Spec):
                 unclaimed_uris.update(x for x in (a, b) if x not in element_uris)
                 continue
             want_edges.append((a, b, r))
-            for x in (a, b):
+            for x, kind in zip((a, b), END_KINDS.get(r[0][len(PROV_URI):], (None, None))):
                 if x not in element_uris:
                     inferred.add(x)
+                    roles.setdefault(x, set()).add(PROV_URI + kind)
         try:
+            # call history: another document, in which the same names play other roles, is converted first
+            for decoy in decoys():
+                prov_to_graph(decoy)
             g = prov_to_graph(doc)
         except Exception as e:
             out.violation("prov_to_graph-raises", type(e).__name__, {"error": repr(e)}, hist)
@@ -149,6 +183,14 @@ class C14(spec.Spec):
             out.violation("inferred-nodes-differ", _cdiff(Counter(inferred), got_inferred),
                           {"want": sorted(inferred), "got": sorted(got_inferred.elements())}, hist)
             return
+        # an inferred node is of a kind that one of the roles it plays in THIS document implies
+        for x in undeclared:
+            u = x.identifier.uri
+            if u in roles and x.get_type().uri not in roles[u]:
+                out.violation("inferred-node-of-wrong-kind", "%s-not-in-%s" % (
+                    x.get_type().uri[len(PROV_URI):], "+".join(sorted(k[len(PROV_URI):] for k in roles[u]))),
+                    {"node": u, "kind": x.get_type().uri, "roles": sorted(roles[u])}, hist)
+                return
         got_edges = Counter()
         for u, v, data in g.edges(data=True):
             rel = data.get("relation")
